@@ -138,14 +138,20 @@ func (ltx levelTransaction) Get(id []byte) ([]byte, error) {
 
 // View run iterator on bolt keyvalue store
 func (ltx levelTransaction) View(u func(it kvi.KVIterator) error) error {
-	it := ltx.db.NewIterator(nil, nil)
+	it := ltx.tx.NewIterator(nil, nil)
 	defer it.Release()
-	lit := levelIterator{ltx.db, it, true, nil, nil}
+	lit := levelIterator{ltx.tx, it, true, nil, nil}
 	return u(&lit)
 }
 
+// levelReader is what an iterator reads single keys from: the database, or the
+// transaction the iterator belongs to
+type levelReader interface {
+	Get(key []byte, ro *opt.ReadOptions) ([]byte, error)
+}
+
 type levelIterator struct {
-	db      *leveldb.DB
+	db      levelReader
 	it      iterator.Iterator
 	forward bool
 	key     []byte
